@@ -20,15 +20,18 @@ ASSUMES = ['partial claim: the theorem is about the three lines of glue (join wi
            'blank nodes are compared up to renaming (both loaders rename them)']
 
 
-def sanitize(case):
+def sanitize(case, tricky=False):
     """clean data and maps so that every generated term is valid (validity itself is C05's subject): cell values become
     plain tokens, reference-valued IRI maps become templates"""
+    # plain tokens, and tokens that look like N-Quads syntax inside a literal (in IRIs they are percent-encoded): blank node labels, IRIs, quoted triples, statement ends
     toks = ['a1', 'b2', 'c3', 'd4', 'e5', 'x', 'y', 'zz']
+    if tricky:
+        toks = ['a1', 'b2', 'c3', 'x', 'k_:v1', '_:b2', '<http://ex.org/a> .', '<< a >>', 'e . f', '"q"@en', 'x^^<y>', 'http://ex.org/a_:b']
     for s in case['sources']:
-        for r in s['rows']:
+        for n_row, r in enumerate(s['rows']):
             for i, v in enumerate(r):
                 if isinstance(v, str):
-                    r[i] = toks[(len(v) + i) % len(toks)]
+                    r[i] = toks[(len(v) * 5 + i + n_row) % len(toks)]
     for role, m, o in family._tmaps(case):
         if m['k'] == 'ref' and (role in ('subject', 'predicate', 'graph') or m.get('tt') == 'iri'):
             m['k'], m['v'] = 'templ', mapcase.EX + 'v/{' + m['v'] + '}'
@@ -43,8 +46,8 @@ def run(ctx, res):
                 'distinct = distinct case; non-trivial = non-empty result with at least one named-graph or RDF-star statement')
     known = set(ctx.known)
     cases = []
-    for _ in range(ctx.scale(60, 1200)):
-        c = sanitize(gen_graph_case(ctx.rng) if ctx.rng.random() < 0.65 else gen_star_case(ctx.rng))
+    for _ in range(ctx.scale(80, 1500)):
+        c = sanitize(gen_graph_case(ctx.rng) if ctx.rng.random() < 0.65 else gen_star_case(ctx.rng), tricky=ctx.rng.random() < 0.4)
         if family.triggers(c) - {'mixed-pom', 'selfjoin-elimination', 'star-repeated-join'}:
             continue
         cases.append(c)
